@@ -227,6 +227,10 @@ PROPS["C19"] = {
 PROPS["C07"]["units"].append(U("TestVerif_C07_ExplorerQuorum", "./processor", PLAIN, PLAIN, kind="plain", module=EX))
 PROPS["C07"]["units"].append(U("TestVerif_C07_ExplorerThreshold", "./processor", PLAIN, PLAIN, kind="plain", module=EX))
 PROPS["C06"]["units"].append(U("TestVerif_C06_ExplorerVerify", "./processor", R(1500), R(60000, shards=16, timeout=1500), module=EX))
+# C07: "a VAA the node considers complete" needs the node to *consider* it complete at exactly floor(2n/3)+1: the
+# step-by-step publication model of C02 (publishes as soon as a quorum of the applicable set has been delivered, not
+# before) runs under C07 too
+PROPS["C07"]["units"].append(U("TestVerif_C02_Histories", PROC, R(1000), R(20000, shards=16, timeout=1500)))
 # C17 is anchored in cleanup.go as well (the processor posts its re-observation requests to the outbound queue from
 # the cleanup pass, which must not stall on a full queue): the C14 schedule unit, whose cases include full request
 # queues of capacity 0..2, runs under C17 too
